@@ -11,8 +11,13 @@ export CARGO_NET_OFFLINE=true
 run_demo() {
   if [ -f "$SRC/demo.sh" ]; then
     # the scripts locate their files through dirname $0: keep the copy next to them
-    sed "s#/tmp/seed2*/$ID-out#$SRC#g; s#/tmp/seed2*/$ID#$WT#g" "$SRC/demo.sh" > "$SRC/.demo_confirm.sh"
-    (cd "$WT" && sh "$SRC/.demo_confirm.sh" "$WT"); rc=$?; rm -f "$SRC/.demo_confirm.sh"; return $rc
+    sed "s#/tmp/seed2*/$ID-out#@@SRC@@#g; s#/tmp/seed2*/$ID#$WT#g; s#@@SRC@@#$SRC#g" "$SRC/demo.sh" > "$SRC/.demo_confirm.sh"
+    (cd "$WT" && bash "$SRC/.demo_confirm.sh" $DEMO_ARG1 "$WT"); rc=$?; rm -f "$SRC/.demo_confirm.sh"; return $rc
+  elif [ -n "$DEMO_AS_TEST" ]; then
+    mkdir -p "$WT/tests" && cp "$SRC/demo_test.rs" "$WT/tests/$DEMO_AS_TEST.rs" && (cd "$WT" && cargo test --offline --target-dir "$WT/target" --test "$DEMO_AS_TEST"); rc=$?; rm -rf "$WT/tests"; return $rc
+  elif [ -n "$DEMO_APPEND_TO" ]; then
+    cp "$WT/$DEMO_APPEND_TO" "$WT/.append.bak"; cat "$SRC/demo_test.rs" >> "$WT/$DEMO_APPEND_TO"
+    (cd "$WT" && cargo test --offline --target-dir "$WT/target" $DEMO_FILTER); rc=$?; cp "$WT/.append.bak" "$WT/$DEMO_APPEND_TO"; rm -f "$WT/.append.bak"; return $rc
   elif [ "$ID" = C01 ]; then
     mkdir -p "$WT/tests" && cp "$SRC/demo_c01.rs" "$WT/tests/demo_c01.rs" && (cd "$WT" && cargo test --offline --target-dir "$WT/target" --test demo_c01); rc=$?; rm -rf "$WT/tests"; return $rc
   elif [ "$ID" = C10 ]; then
@@ -28,6 +33,7 @@ run_demo() {
 echo "== $ID pristine"; run_demo > "$LOG.pristine" 2>&1; P=$?; echo "demo on pristine tree: rc=$P"
 git -C "$WT" apply "$SRC/patch.diff" || { echo "patch does not apply"; exit 2; }
 echo "== $ID with change"; run_demo > "$LOG.changed" 2>&1; C=$?; echo "demo with the change: rc=$C"
+git -C "$WT" checkout -q -- . ; git -C "$WT" clean -fdq -e target; git -C "$WT" apply "$SRC/patch.diff"
 (cd "$WT" && cargo test --offline --target-dir "$WT/target" 2>&1 | grep "test result" ) > "$LOG.tests" 2>&1; cat "$LOG.tests"
 if [ $P -eq 0 ] && [ $C -ne 0 ] && grep -q "ok. 41 passed" "$LOG.tests"; then echo "CONFIRMED $ID"; else echo "NOT-CONFIRMED $ID (pristine rc=$P changed rc=$C)"; fi
 } > "$LOG" 2>&1
